@@ -107,7 +107,7 @@ Print Assumptions C10_start_worlds_defined.
 
 Example C10_menu_size :
   length crash_menu = 84 /\
-  fold_right Nat.add 0 (map (fun l => S (S l)) crash_lengths) = 1493 /\     (* crash points evaluated *)
+  fold_right Nat.add 0 (map (fun l => S (S l)) crash_lengths) = 1521 /\     (* crash points evaluated *)
   known10 = [].
 Proof. vm_compute. repeat split. Qed.
 
